@@ -315,6 +315,8 @@ def run(ctx):
                    "parse_number must reject numbers above a constant limit at every call", pn.loc)
         from .c01_fmtargs import check_format_args
         check_format_args(ctx, prog, tag)
+        from .c01_search import check_search_loops
+        check_search_loops(ctx, prog, tag)
         for fn_, what in (("minijinja::filters::builtins::indent", "indent width"), ("minijinja::filters::builtins::tojson", "tojson indent")):
             f = prog.fns.get(fn_)
             if f is None:
